@@ -13,7 +13,7 @@ m=json.load(open(a.src+'/meta.json'))
 meta={"breaks_property":a.prop,"origin":"written by an independent sub-agent that saw only the property text and a scratch worktree of /repo",
  "summary":m.get('summary'),"where":m.get('where') or m.get('ecosystem'),"needs_to_manifest":m.get('needs'),"failing_example":m.get('failing_example'),
  "confirmed_by_me":["tools/evalmutant.sh: in a fresh scratch worktree of /repo HEAD the demonstration passes without the patch and fails with it; `go test ./...` passes with the patch",
-                    "git -C /repo apply patch.diff; ./bin/vx check <id> (quick); git -C /repo checkout -- ."],
+                    "checks run against the patched scratch worktree (VX_REPO=<worktree> ./bin/vx check <id>, quick tier); equivalent to git -C /repo apply patch.diff; ./bin/vx check <id>; git -C /repo checkout -- ."],
  "caught_by":[c for c in a.caught.split(',') if c],"not_caught_by":[c for c in a.missed.split(',') if c],"note":a.note}
 json.dump(meta,open(dst+'/meta.json','w'),indent=1)
 print('saved',dst)
